@@ -676,7 +676,7 @@ def _sbml_to_model(
 
         specie_fbc: "libsbml.FbcSpeciesPlugin" = specie.getPlugin("fbc")
         if specie_fbc:
-            met.charge = specie_fbc.getCharge()
+            met.charge = specie_fbc.getCharge() if specie_fbc.isSetCharge() else None
             met.formula = specie_fbc.getChemicalFormula() or None
         else:
             if specie.isSetCharge():
